@@ -21,6 +21,8 @@ import gen_limiter as G  # noqa: E402
 def classify(case, obs):
     if obs == C.PANIC:
         return "panic"
+    if obs in ("9998", "9997"):
+        return "outside the modelled domain (first poll of a call while poll_ready is pending)"
     fs = [f.split(",") for f in obs.split(";")]
     ops = case.split(";")[1:]
     pend = any(o == "1" and f[0] == "0" for o, f in zip(ops, fs))
